@@ -207,6 +207,18 @@ def run(tier, seed):
     vlib.log("replayed %d pairs on the real diff in %.1fs" % (out.total, time.time() - t0))
     if out.total != states and not out.truncated:
         raise vlib.Inconclusive("replayed %d of %d pairs" % (out.total, states))
+    # the command-line path (`wrgl diff x y --no-gui`): a seeded sample of the pairs, both tables committed for real
+    cscen = os.path.join(vlib.sub("scn"), "diff-cli.ndjson")
+    with open(bulk) as f:
+        blines = f.readlines()
+    want = 150 if tier == "quick" else 1500
+    stepc = max(1, len(blines) // want)
+    with open(cscen, "w") as f:
+        f.writelines(blines[(seed % stepc)::stepc])
+    cout = vlib.replay("diffcli", cscen, timeout=120)
+    vlib.absorb_replay(v, cout, "diffcli", cscen, crash_sig=lambda sc, t: "diff/cli/crash")
+    if not cout.classes.get("cli"):
+        raise vlib.Inconclusive("no pair went through the command line (vacuous)")
     # (C)
     recfile = os.path.join(vlib.sub("scn"), "diff-rec.ndjson")
     nrec = TIERS[tier]["rec"]
@@ -227,6 +239,7 @@ def run(tier, seed):
     if sample is not None:
         samples.append(sample)
     cov = {
+        "command_line_pairs": {"run": cout.total, "through_wrgl_diff": cout.classes.get("cli", 0), "passed": cout.passed},
         "states": states, "transitions": generated,
         "traces_validated_against_impl": n_valid,
         "trace_events": n_events,
@@ -276,7 +289,7 @@ def replay(path):
     if isinstance(doc["scenario"], dict):
         run_recorded(v, scen, tag="replay")
     else:
-        out = vlib.replay(ENGINE, scen, nshards=1)
+        out = vlib.replay(doc.get("engine", ENGINE) if doc.get("engine") in ("diffcli",) else ENGINE, scen, nshards=1)
         vlib.absorb_replay(v, out, ENGINE, scen, crash_sig=crash_sig)
     if v.violations:
         print("VIOLATION property=%s replay=%s   (%s)" % (PROP, path, v.violations[0]))
